@@ -33,6 +33,9 @@ def templates(ctx):
         if not q: T.append({'name': 'sk-' + nm + '2', 'parts': [(pre + U[(i + 2) % len(U)]).encode('utf-8'), 1]})
     for name, parts in sk:
         T.append({'name': 'sk-' + name, 'parts': parts})
+    # flat chains of 2 and 9 operands: the parser's call depth must not grow with the number of operands (only with nesting)
+    for op in (b'and', b'or'):
+        for n in (2, 9): T.append({'name': 'chain-%s-%d' % (op.decode(), n), 'parts': [(b' ' + op + b' ').join([b'a'] * n)]})
     return T
 
 
@@ -117,6 +120,21 @@ def run(ctx):
             kind = 'panic' if s['expect'] == 'panic' else 'nonterm'
             ctx.report('filter.parse.%s:%s' % (kind, fn_of(s.get('where'))),
                        '%s in %s on input %r (native: %s)' % (s['detail'], s.get('where'), bytes.fromhex(s['input']), str(s['native'])[:120]), case=s['native_case'])
+    # unbounded recursion: a flat `a and a and ...` / `a or a or ...` must be parsed in constant call depth
+    depth = {s['template']: s.get('maxdepth', 0) for s in S if s.get('template', '').startswith('chain-') and s['kind'] == 'ok'}
+    ctx.cov['flat_chain_call_depth'] = depth
+    for op in ('and', 'or'):
+        d2, d9 = depth.get('chain-%s-2' % op), depth.get('chain-%s-9' % op)
+        if d2 is None or d9 is None: ctx.note_inconclusive('flat chain %s: no depth measurement' % op); continue
+        if d9 > d2:
+            # confirm natively: a flat chain long enough to exhaust the stack if the depth is linear in it
+            big = (b' ' + op.encode() + b' ').join([b'a'] * 300000)
+            case = {'api': 'filter_parse', 'in': big.hex()}
+            n = native.run_cases(native.build(), [case], per_case_timeout=60)[0]
+            if 'abort' in n or 'hang' in n or 'panic' in n:
+                ctx.report('filter.parse.recursion:%s-chain' % op, 'the call depth of the parser grows with the number of operands of a flat %s chain (%d frames for 2 operands, %d for 9); 300000 operands: %s' % (op, d2, d9, str(n)[:80]),
+                           case={'api': 'filter_parse', 'in': (b' ' + op.encode() + b' ').join([b'a'] * 300000).hex()})
+            else: ctx.note_inconclusive('call depth grows with a flat %s chain (%d -> %d frames) but 300000 operands parse natively' % (op, d2, d9))
     ctx.cov['traces_validated_against_impl'] += validated
     for s in S[:6]:
         ctx.add_sample({'template': s['template'], 'input': s.get('input'), 'mirsym': s.get('expect'), 'native': str(s.get('native'))[:80]})
